@@ -24,6 +24,9 @@ var allKeywords = []string{"@immutable", "@testonly", "@mutable", "@implements",
 func init() {
 	registerProp(&propDef{ID: "C01", Rules: func(c *Ctx) {
 		c.ruleSitesIMM()
+		if c.reachesTypeInfoHelpers("immutable") {
+			c.ruleTypeInfoHelpers() // the receiver's type is resolved by the shared helper
+		}
 		c.rulePrune("immutable")
 		c.ruleWalkRoot("immutable")
 		c.ruleWalkState("immutable")
@@ -72,6 +75,7 @@ func init() {
 		c.ruleSitesPKGO()
 		c.ruleGateBeforeDedup("packageonly")
 		c.ruleCopyWriteback("util")
+		c.ruleKindStorage()
 		c.ruleTypeInfoHelpers()
 		c.rulePrune("packageonly")
 		c.ruleWalkRoot("packageonly")
@@ -128,6 +132,11 @@ func init() {
 		c.ruleReportGate()
 		c.rulePruneGate("immutable", "constructor", "testonly", "packageonly")
 		c.ruleCodeTable()
+		// the checkers that consult the set themselves ask about the code and the position they report
+		c.only([]string{"IGNORE-GATE", "FLOOR"}, func() {
+			c.ruleSitesTONL()
+			c.ruleSitesPKGO()
+		})
 	}, Explanation: "exclude-checks: both inputs (flag value, environment value) are split/trimmed/upper-cased; the list of the effective configuration is added, whenever non-empty, as global tokens to the very ignore set every analyzer receives; the global phase of Contains precedes the range fast-reject and matches by exact equality against ALL/category/code of the queried code; every diagnostic passes the gate (single report sink, or detection-time gate for every site of packages reporting without a set); the hierarchy table covers every code constant."})
 
 	registerProp(&propDef{ID: "C14", Rules: func(c *Ctx) {
@@ -144,6 +153,8 @@ func init() {
 		c.ruleAttach(allKeywords...)
 		c.rulePost("@constructor", "@packageonly", "@ignore")
 		c.ruleNoWalkInReader()
+		// every declaration, spec, doc line and declared name is read: no list of the reader is cut short
+		c.ruleIter("annotations", "ignore")
 	}, Explanation: "Decision procedure: for each of the 7 keywords the language of the source regular expression (with the argument group made mandatory where the parser rejects an empty argument, all quantifiers greedy) equals the reference grammar over comment texts (no newline), by product-automaton exploration with a shortest distinguishing comment as witness; capture-group languages equal the documented argument languages; every pre-filter (Aho-Corasick dictionary, strings.Contains dispatch) is implied by the regex; the only guards on the way to a parser are its own pre-filters and the declaration-kind dispatch; the parsed text is a line of TypeSpec.Doc-else-GenDecl.Doc / FuncDecl.Doc / Field.Doc of a top-level declaration of a filtered file (no AST walk, no trailing comments); every non-nil result reaches the matching list; list arguments are split on commas, trimmed, empties dropped, codes upper-cased."})
 
 	registerProp(&propDef{ID: "C16", Rules: func(c *Ctx) {
@@ -151,6 +162,13 @@ func init() {
 		c.ruleIgnoreSetAdd()
 		c.ruleHierarchy()
 		c.ruleCodeTable()
+		// the decision is asked for the diagnostic's own code and position: by the one report sink, and by the
+		// checkers that consult the set themselves
+		c.ruleReportGate()
+		c.only([]string{"IGNORE-GATE", "FLOOR"}, func() {
+			c.ruleSitesTONL()
+			c.ruleSitesPKGO()
+		})
 	}, Explanation: "All outcomes of IgnoreSet.Contains enumerated (through the result cell of the range-over-func loops): false for nil/uninitialised; true iff a global token equals (slices.Contains) an element of GetCodesForCheck(code); fast reject only for pos strictly outside [MinPos,MaxPos] and only after the global phase; true iff StartPos <= pos <= EndPos for a marker taken from a range over CodeIndex[element of GetCodesForCheck(code)]; positions are only compared; Add appends every marker, indexes it under each of its codes, maintains MinPos/MaxPos as min/max; GetCodesForCheck yields ALL, category, code from a table built for every category and code."})
 
 	registerProp(&propDef{ID: "C19", Rules: func(c *Ctx) {
@@ -224,6 +242,7 @@ func init() {
 		c.ruleIndexSrc()
 		c.ruleIterPackages()
 		c.ruleContainersEmptyFalse()
+		c.ruleKindStorage()
 		c.ruleLangEq()
 		c.ruleAttach(allKeywords...)
 		c.ruleNoWalkInReader()
